@@ -836,7 +836,8 @@ class H2Stream:
         self.state_machine.process_input(input_)
         return
 
-    def send_headers(self, headers, encoder, end_stream=False):
+    def send_headers(self, headers, encoder, end_stream=False,
+                     priority_present=False):
         """
         Returns a list of HEADERS/CONTINUATION frames to emit as either headers
         or trailers.
@@ -865,7 +866,9 @@ class H2Stream:
         hf = HeadersFrame(self.stream_id)
         hdr_validation_flags = self._build_hdr_validation_flags(events)
         frames = self._build_headers_frames(
-            headers, encoder, hf, hdr_validation_flags
+            headers, encoder, hf, hdr_validation_flags,
+            # Priority information takes up five bytes of the HEADERS frame.
+            first_frame_overhead=5 if priority_present else 0
         )
 
         if end_stream:
@@ -904,7 +907,9 @@ class H2Stream:
         ppf.promised_stream_id = related_stream_id
         hdr_validation_flags = self._build_hdr_validation_flags(events)
         frames = self._build_headers_frames(
-            headers, encoder, ppf, hdr_validation_flags
+            headers, encoder, ppf, hdr_validation_flags,
+            # The promised stream ID takes up four bytes of the frame.
+            first_frame_overhead=4
         )
 
         return frames
@@ -1236,7 +1241,8 @@ class H2Stream:
                               headers,
                               encoder,
                               first_frame,
-                              hdr_validation_flags):
+                              hdr_validation_flags,
+                              first_frame_overhead=0):
         """
         Helper method to build headers or push promise frames.
         """
@@ -1253,15 +1259,19 @@ class H2Stream:
 
         encoded_headers = encoder.encode(headers)
 
-        # Slice into blocks of max_outbound_frame_size. Be careful with this:
-        # it only works right because we never send padded frames or priority
-        # information on the frames. Revisit this if we do.
-        header_blocks = [
+        # Slice into blocks of max_outbound_frame_size. The first frame may
+        # carry other fields besides the header block fragment (priority
+        # information, the promised stream ID): leave room for them.
+        first_block_size = self.max_outbound_frame_size - first_frame_overhead
+        header_blocks = [encoded_headers[:first_block_size]]
+        header_blocks.extend(
             encoded_headers[i:i+self.max_outbound_frame_size]
             for i in range(
-                0, len(encoded_headers), self.max_outbound_frame_size
+                first_block_size,
+                len(encoded_headers),
+                self.max_outbound_frame_size
             )
-        ] or [b'']
+        )
 
         frames = []
         first_frame.data = header_blocks[0]
